@@ -862,7 +862,7 @@ func (i *BigInt) LaxEqual(other Value) bool {
 			oBigInt := NewBigInt(int64(o))
 			return i.Cmp(oBigInt) == 0
 		case UInt64:
-			oBigInt := NewBigInt(int64(o))
+			oBigInt := ToElkBigInt((&big.Int{}).SetUint64(uint64(o)))
 			return i.Cmp(oBigInt) == 0
 		case Float64:
 			return i.ToFloat() == Float(o)
@@ -890,10 +890,10 @@ func (i *BigInt) LaxEqual(other Value) bool {
 		oBigInt := NewBigInt(int64(other.AsInt8()))
 		return i.Cmp(oBigInt) == 0
 	case UINT_FLAG:
-		oBigInt := NewBigInt(int64(other.AsUInt()))
+		oBigInt := ToElkBigInt((&big.Int{}).SetUint64(uint64(other.AsUInt())))
 		return i.Cmp(oBigInt) == 0
 	case UINT64_FLAG:
-		oBigInt := NewBigInt(int64(other.AsInlineUInt64()))
+		oBigInt := ToElkBigInt((&big.Int{}).SetUint64(uint64(other.AsInlineUInt64())))
 		return i.Cmp(oBigInt) == 0
 	case UINT32_FLAG:
 		oBigInt := NewBigInt(int64(other.AsUInt32()))
